@@ -17,11 +17,12 @@ EXPLANATION = (
     "bounded SMT checking of the symbolically executed real code: ==, !=, equal, not_equal, isclose of the object backend are "
     "executed on z3-term coordinates for every pairing of coordinate systems; z3 (QF_NRA) decides '!= is the negation of ==', symmetry, "
     "'== implies isclose', reflexivity, tolerance monotonicity and, for same-system operands, the component-wise characterisations; "
-    "the same-system kernels are additionally executed on z3 Float64 terms (QF_FP, bit-exact IEEE, NaN excluded as the property says)"
+    "the same-system kernels are additionally executed on z3 Float64 terms (QF_FP, bit-exact IEEE, NaN excluded as the property says); the real VectorNumpy "
+    "classes (arrays of z3-term scalars) execute ==, !=, numpy.equal/not_equal/isclose/allclose and each element must be the object-backend method's result"
 )
 BOUNDS = {
     "semantics": "exact reals for all system pairings; IEEE Float64 (bit-exact) for same-system ==/!= kernels",
-    "outside": "tolerance monotonicity in IEEE arithmetic (queries do not finish, DESIGN.md §8); NumPy/Awkward element-wise agreement is covered by C03's lane",
+    "outside": "tolerance monotonicity in IEEE arithmetic (queries do not finish, DESIGN.md §8); Awkward arrays (C++ layouts); numpy.allclose on one-element views only (the reduction of several symbolic truth values is not a term)",
 }
 
 
@@ -186,6 +187,26 @@ def families(tier="quick"):
                         + ["vector._methods._maybe_same_dimension_error", "vector.backends.object.VectorObject.__array_ufunc__"],
                     )
                 )
+    # NumPy lane: the numpy.equal / not_equal / isclose / allclose function forms and the operators of the real VectorNumpy
+    # classes against the object-backend methods, element by element (helpers of props/c03.py)
+    from . import c03
+
+    NPF = ["vector.backends.numpy.VectorNumpy.__array_function__", "vector.backends.numpy.VectorNumpy.__array_ufunc__", "vector.backends.numpy.VectorNumpy.allclose", "vector.backends.numpy.VectorNumpy.__eq__", "vector.backends.numpy.VectorNumpy.__ne__"]
+    for d in (2, 3, 4):
+        systems = lanes.ALL_SYS[d]
+        k = 0
+        for i1, s1 in enumerate(systems):
+            for i2, s2 in enumerate(systems):
+                if tier != "thorough" and not (s1 == s2 or i2 == (i1 + 1) % len(systems)):
+                    continue
+                pairings = ("nn", "no", "on") if tier == "thorough" else (("nn", "no", "on")[k % 3],) if s1 != s2 else ("nn",)
+                k += 1
+                for pairing in pairings:
+                    for m1, m2 in ((False, True), (True, False)) if (tier == "thorough" or pairing == "nn") else ((False, True),):
+                        tag = {(False, True): "generic,momentum", (True, False): "momentum,generic"}[(m1, m2)]
+                        fams.append(
+                            Family(f"{PID}/numpy-forms/{pairing}/{lanes.sysname(s1)}|{lanes.sysname(s2)}/{tag}", c03.f_np_forms(s1, s2, pairing, (2,), m1, m2), defd=False, functions=NPF, hard_s=400, structural=True)
+                        )
     # Float64 lane on the same-system kernels
     import importlib
 
